@@ -146,6 +146,75 @@ def rule_position_helpers(facts, rid):
             t6.violate(f"slice/unit/{side}", f"text strings and byte strings are sliced with the same helper {sorted(a[0])}: one of them counts in the wrong unit", where=a[1])
     return t6
 
+
+def rule_ctx_agreement(facts, rid):
+    """The evaluators shape the context of a term the same way (cross-check of siblings): what one evaluator does to the
+    context (which bindings it drops, replaces or adds) for a term kind, the others do as well."""
+    t8 = Rule(rid, "the value, path and update evaluators apply the same operations to the context (`Ctx` methods: skip_vars, with_vars, cons_*; rebuilding the context) "
+              "for every term kind: a call, a variable reference or a native sees the same bindings whether it is evaluated for values, for paths or in an update "
+              "(an evaluator that keeps bindings another one drops resolves variables differently and retains the caller's bindings per call)", floor=3)
+    variants = adt_variants(facts, "jaq_core::compile::Term") or []
+    tab = {}
+    for mode in MODES:
+        f, m = evaluator(facts, mode)
+        if m is None:
+            t8.missing_anchor(f"TermId::{mode}")
+            return t8
+        for name, nf in variants:
+            got = set()
+            for i, kind in candidates(m["arms"], C(f"jaq_core::compile::Term::{name}", *([ANY] * nf))):
+                a = m["arms"][i]
+                for c in callees(a["body"]):
+                    if re.search(r"^jaq_core::filter::Ctx(::<.*>)?::\w+$", c) and not c.endswith(("::clone", "::lut", "::data")):
+                        got.add(c.split("::")[-1])
+            tab[(mode, name)] = got
+    for name, nf in variants:
+        r, p, u = tab[("run", name)], tab[("paths", name)], tab[("update", name)]
+        if not (r or p or u):
+            continue
+        t8.examined(name, True, {"term": name, "run": sorted(r), "paths": sorted(p), "update": sorted(u)})
+        if r != p:
+            t8.violate(f"ctx/{name}/paths", f"{name}: the value evaluator applies {sorted(r)} to the context, the path evaluator {sorted(p)}: the same term sees different bindings (and keeps different ones alive) in the two modes")
+        if not r <= u and u:
+            t8.violate(f"ctx/{name}/update", f"{name}: the value evaluator applies {sorted(r)} to the context, the update evaluator only {sorted(u)}")
+    return t8
+
+
+def rule_vacant_insert(facts, rid):
+    """`.[k] |= f` on an object without the key: the key is created only if f yields something."""
+    from mirutil import Body, op_local
+    r9 = Rule(rid, "an update that yields nothing creates no position: in the element update of objects (map_index), inserting into a vacant entry is "
+              "control-dependent on the updater's first output being `Some` (a test of the Option that comes out of `next()`), so `del(.missing)` and `.missing |= empty` leave the object unchanged", floor=1)
+    js = facts.mir_find(r"^<jaq_json::Val as jaq_core::val::ValT>::map_index$", "jaq_json")
+    if len(js) != 1:
+        r9.missing_anchor("<Val as ValT>::map_index")
+        return r9
+    b = Body(js[0])
+    nexts = b.find_calls(r"core::iter::traits::iterator::Iterator::next$")
+    from_next = set()
+    for n in nexts:
+        from_next |= b.derived_from([b.call_result_local(n)])
+    opt_switches = []
+    for i, bb in enumerate(b.bbs):
+        t = bb["t"]
+        if t["k"] != "Switch" or op_local(t["o"]) is None:
+            continue
+        d = op_local(t["o"])
+        for bb2 in b.bbs:
+            for s_ in bb2["st"]:
+                if s_.get("k") == "A" and s_["p"]["l"] == d and not s_["p"].get("pr") and s_["r"].get("k") == "Discr" \
+                        and str(s_["r"].get("pty", "")).startswith("core::option::Option<") and s_["r"]["p"]["l"] in from_next:
+                    opt_switches.append(i)
+    inserts = b.find_calls(r"indexmap::map::core::entry::VacantEntry::<.*>::(insert|insert_entry|insert_sorted)$|indexmap::map::core::entry::Entry::<.*>::or_(insert|insert_with|insert_with_key|default)$|indexmap::map::IndexMap::<.*>::(insert|insert_full)$")
+    if not inserts:
+        r9.missing_anchor("insertion into a vacant object entry in map_index")
+    for c in inserts:
+        ok = any(b.controlled_by(c, sw) for sw in opt_switches)
+        r9.examined(("insert", b.bbs[c]["t"]["sp"]), True, {"insert": (b.bbs[c]["t"].get("fn") or "").split("::")[-1], "only_if_the_update_yields": ok})
+        if not ok:
+            r9.violate("vacant-insert", "map_index inserts a key that the object does not have even when the update yields nothing (the insertion is not conditional on the updater's output being `Some`): `del(.missing)` / `.missing |= empty` create the key", where=b.bbs[c]["t"]["sp"])
+    return r9
+
 def run(facts, tier):
     t0 = time.time()
     rules = []
@@ -364,6 +433,12 @@ def run(facts, tier):
 
     # ---------------- T2.6 read and update position the same way
     rules.append(rule_position_helpers(facts, "T2.6").finish())
+
+    # ---------------- T2.8 the evaluators shape the context alike
+    rules.append(rule_ctx_agreement(facts, "T2.8").finish())
+
+    # ---------------- T2.9 an update that yields nothing creates no position
+    rules.append(rule_vacant_insert(facts, "T2.9").finish())
 
     # ---------------- T2.7 native twins
     t7 = Rule("T2.7", "the natives that exist in a value and a path version (first, last, limit, skip) are the same code up to the evaluator they call", floor=4)
